@@ -350,7 +350,7 @@ func (vm *VM) callNative(fn *NativeFunction, numVariadic int8, shift StackShift,
 			if i < lastNonVariadic {
 				if i < 2 && typ.In(i) == envType {
 					// Set the path of the file that contains the call.
-					if vm.main {
+					if vm.main && vm.fn != nil {
 						env := vm.env
 						env.mu.Lock()
 						env.callPath = vm.fn.InstructionInfo[vm.pc-1].Path
@@ -603,9 +603,11 @@ func (vm *VM) nextCall() bool {
 				if call.status == deferred {
 					vm.calls[i] = vm.calls[i+1]
 					vm.calls[i].status = panicked
-					if call.cl.fn != nil {
-						i++
-					}
+					// The panicked frame is now the top of the stack. If
+					// the deferred call is native, it is called below and
+					// the loop continues from the panicked frame.
+					vm.calls = vm.calls[:i+1]
+					i++
 					break
 				}
 			}
